@@ -31,6 +31,10 @@ type runResult struct {
 	Lines      int             `json:"lines"`
 	Mismatch   *mismatch       `json:"mismatch,omitempty"`
 	SpecFail   *specFail       `json:"spec_fail,omitempty"`
+	// Digest of the whole recorded run (every op line, output digest, state digest): C19 compares it
+	// between two executions in one process and between processes
+	Digest   string `json:"digest"`
+	Nondet   string `json:"nondeterminism,omitempty"`
 	SpecActs   int             `json:"spec_actions"`
 	Stats      map[string]int  `json:"stats"`
 }
@@ -184,7 +188,7 @@ func oneRun(o sim.Opts, useModel bool) runResult {
 		c = sim.NewCluster(o)
 		c.Run()
 	}
-	rr := runResult{Opts: o, Violations: c.Violations, Lines: len(c.Rec.Lines), Stats: c.Stats}
+	rr := runResult{Opts: o, Violations: c.Violations, Lines: len(c.Rec.Lines), Stats: c.Stats, Digest: recDigest(c)}
 	if !useModel {
 		return rr
 	}
@@ -219,6 +223,24 @@ func oneRun(o sim.Opts, useModel bool) runResult {
 		}
 	}
 	return rr
+}
+
+func recDigest(c *sim.Cluster) string {
+	h := uint64(14695981039346656037)
+	mix := func(s string) {
+		for i := 0; i < len(s); i++ {
+			h ^= uint64(s[i])
+			h *= 1099511628211
+		}
+		h ^= 0xff
+		h *= 1099511628211
+	}
+	for i := range c.Rec.Lines {
+		mix(c.Rec.Lines[i])
+		mix(c.Rec.Outs[i])
+		mix(c.Rec.States[i])
+	}
+	return fmt.Sprintf("%016x/%d", h, len(c.Rec.Lines))
 }
 
 // explain re-runs with full texts and a verbose driver to localise the first difference.
@@ -313,6 +335,7 @@ func main() {
 	mode := flag.String("mode", "all", "mixed|converge|asynccrash|single|zero|snap|figure8|nodefuzz")
 	corpus := flag.String("corpus", "", "directory of replay files to run first (minimised past findings)")
 	directed := flag.String("directed", "", "internal: JSON options to vary (directed search)")
+	rerun := flag.String("rerun", "", "internal: JSON list of options to re-execute (cross-process determinism)")
 	flag.Parse()
 
 	if *replay != "" {
@@ -328,8 +351,16 @@ func main() {
 	if *child {
 		rng := rand.New(rand.NewSource(*seed))
 		w := bufio.NewWriter(os.Stdout)
+		var rerunOpts []sim.Opts
+		if *rerun != "" {
+			json.Unmarshal([]byte(*rerun), &rerunOpts)
+			*runs = len(rerunOpts)
+		}
 		for i := 0; i < *runs; i++ {
 			o := genOpts(rng, *tier, *mode)
+			if rerunOpts != nil {
+				o = rerunOpts[i]
+			}
 			if *directed != "" {
 				var base sim.Opts
 				if json.Unmarshal([]byte(*directed), &base) == nil {
@@ -339,6 +370,14 @@ func main() {
 				}
 			}
 			rr := oneRun(o, !*noModel)
+			if *rerun != "" || i%6 == 0 {
+				// C19: the same run executed a second time in this process must be identical
+				r2 := oneRun(o, false)
+				rr.Stats["determinism_inprocess_reruns"]++
+				if r2.Digest != rr.Digest {
+					rr.Nondet = fmt.Sprintf("second execution in the same process differs: %s vs %s", rr.Digest, r2.Digest)
+				}
+			}
 			b, _ := json.Marshal(rr)
 			w.Write(b)
 			w.WriteByte('\n')
@@ -413,6 +452,35 @@ func main() {
 			res.Stats["corpus_runs"]++
 		}
 		all = append(cr, all...)
+	}
+	// C19: a sample of the runs is executed again in a fresh OS process; the digests must be identical
+	if !*noModel {
+		var sample []sim.Opts
+		want := map[int64]string{}
+		for i, rr := range all {
+			if i%12 == 0 && len(sample) < 40 && len(rr.Violations) == 0 && len(rr.Opts.Script) == 0 {
+				sample = append(sample, rr.Opts)
+				want[rr.Opts.Seed] = rr.Digest
+			}
+		}
+		if len(sample) > 0 {
+			sb, _ := json.Marshal(sample)
+			cmd := exec.Command(self, "-child", "-rerun", string(sb), "-nomodel", "-tier", *tier)
+			out, err := cmd.Output()
+			if err == nil {
+				for _, line := range strings.Split(string(out), "\n") {
+					var rr runResult
+					if line == "" || json.Unmarshal([]byte(line), &rr) != nil {
+						continue
+					}
+					res.Stats["determinism_crossprocess_reruns"]++
+					if w := want[rr.Opts.Seed]; w != "" && w != rr.Digest && len(rr.Violations) == 0 {
+						rr.Nondet = fmt.Sprintf("execution in a second process differs: %s vs %s", w, rr.Digest)
+						all = append(all, rr)
+					}
+				}
+			}
+		}
 	}
 	// directed search (DESIGN.md 5.2): the correspondence broke but no monitor fired -> look for a concrete
 	// failing history around the disagreeing runs (same options, fresh seeds; monitors only)
@@ -517,6 +585,15 @@ func summarise(res *report.Result, all []runResult, expected int) {
 					Key:    "implementation step is not a step of the abstract protocol",
 					What:   fmt.Sprintf("%q -> %s", clip(rr.SpecFail.Action), clip(rr.SpecFail.Output)),
 					Replay: p})
+			}
+		}
+		if rr.Nondet != "" {
+			res.Disagreements++
+			if !seenV["nondet"] {
+				seenV["nondet"] = true
+				p := report.WriteReplay(fmt.Sprintf("sim_nondet_%d.json", rr.Opts.Seed), rr)
+				res.Violations = append(res.Violations, report.Violation{Property: "C19", Kind: "history", Concrete: true,
+					Key: "same inputs, different outputs", What: rr.Nondet, Replay: p})
 			}
 		}
 		if rr.Mismatch != nil {
